@@ -421,15 +421,21 @@ func termDist(a, b *Term) int {
 			best = d
 		}
 	}
-	// one node wrapped or unwrapped (x vs x+1, f(x) vs x)
-	for _, ch := range a.Args {
-		if d := 1 + termSize(a) - termSize(ch) - 1 + termDist(ch, b); d < best && termSize(a)-termSize(ch) <= 3 {
-			best = d
+	// one node wrapped or unwrapped (x vs x+1, f(x) vs x). A projection (field, deref, element) around a
+	// value is a change of data layout, not of the computation: that is not a local difference.
+	structural := func(t *Term) bool { return t.Op == "field" || t.Op == "deref" || t.Op == "each" || t.Op == "index" || t.Op == "extract" }
+	if !structural(a) {
+		for _, ch := range a.Args {
+			if d := 1 + termSize(a) - termSize(ch) - 1 + termDist(ch, b); d < best && termSize(a)-termSize(ch) <= 3 {
+				best = d
+			}
 		}
 	}
-	for _, ch := range b.Args {
-		if d := 1 + termSize(b) - termSize(ch) - 1 + termDist(a, ch); d < best && termSize(b)-termSize(ch) <= 3 {
-			best = d
+	if !structural(b) {
+		for _, ch := range b.Args {
+			if d := 1 + termSize(b) - termSize(ch) - 1 + termDist(a, ch); d < best && termSize(b)-termSize(ch) <= 3 {
+				best = d
+			}
 		}
 	}
 	if best > gross {
